@@ -150,6 +150,12 @@ def run_scenarios(rep, tier, seed, tag, make_scenario, oracle, n_quick, n_thorou
                 for st in scn["steps"]:
                     if st["op"] in ("create", "verify", "verifydh", "diff", "flatten", "info") and srng.random() < 0.5:
                         st["spell"] = "slash"
+            if i % 5 == 2:
+                # verbose runs: more lines on the console, the same behaviour
+                vrng = core.rng_for(seed, f"{tag}/{i}/verbose")
+                for st in scn["steps"]:
+                    if st["op"] in ("create", "verify", "verifydh", "verifypl", "diff", "flatten", "info") and vrng.random() < 0.5:
+                        st["verbose"] = True
             scenarios.append((f"gen{i}", scn))
         for label, scn in scenarios:
             impl_obs, root = world.run_impl(scn, scratch, snap=snap)
